@@ -75,6 +75,10 @@ FORMATS = ['csv', 'csv', 'csv', 'tsv', 'pickle', 'json', 'jsonlines',
            'jsonarrays', 'text']
 
 
+TYPED_FIELDS = ['a', 2019, 2020, None, 2.5, True, (1, 'a'), b'b', 'é', '',
+                ' pad ']
+
+
 def budget(tier):
     if tier == 'quick':
         return {'cases': 30000, 'wall_cap_s': 240}
@@ -157,6 +161,11 @@ def gen_case(rng, tier, g):
     hist = []
     nops = rng.choice([1, 1, 2, 3, 4]) if can_append else rng.choice([1, 1, 2])
     hdr = FIELDS[:nf]
+    typed_hdr = fmt == 'pickle' and rng.random() < 0.3
+    if typed_hdr:
+        # field names are whatever objects the header row holds: years,
+        # None, tuples; pickle carries them as they are
+        hdr = rng.sample(TYPED_FIELDS, nf)
     for i in range(nops):
         if i == 0 or not can_append or rng.random() < 0.25:
             op = 'TO'
@@ -168,9 +177,34 @@ def gen_case(rng, tier, g):
         if op == 'TO' and i > 0 and rng.random() < 0.5:
             # the target is rewritten with another set of fields
             nf = rng.randint(1, 4)
-            hdr = rng.sample(FIELDS, nf)
+            hdr = rng.sample(TYPED_FIELDS if typed_hdr else FIELDS, nf)
         t = _table(rng, fmt, maxrows, nf=nf, hdr=hdr)
         hist.append([op, t, wh])
+    case = _case(rng, fmt, target, args, hist)
+    if rng.random() < 0.025:
+        # one of the tables is long (row j: a row of the drawn table with
+        # 'r<j>' as its first cell): whatever a writer or reader does once
+        # per so many rows happens
+        case['inflate'] = [rng.randrange(len(hist)),
+                           rng.choice([1000, 1001, 1024, 1500, 2049, 3000])]
+    return case
+
+
+def _inflated(case, opi, table):
+    inf = case.get('inflate')
+    if not inf or inf[0] != opi:
+        return table
+    base = [list(r) for r in table[1:]] or [['x'] * len(table[0])]
+    out = [list(r) for r in table]
+    for j in range(inf[1]):
+        row = list(base[j % len(base)])
+        if row:
+            row[0] = 'r%d' % j
+        out.append(row)
+    return out
+
+
+def _case(rng, fmt, target, args, hist):
     return {'prop': PROP, 'fmt': fmt, 'target': target, 'args': args,
             'config': draw_config(rng, 0.1),
             'history': hist,
@@ -444,7 +478,7 @@ def run_case(case):
                             if k in ('encoding', 'errors'))
             same = None
             for opi, (op, tenc, wh) in enumerate(case['history']):
-                table = dec_table(tenc)
+                table = _inflated(case, opi, dec_table(tenc))
                 if case.get('same_object'):
                     # the caller keeps ONE list of lists and edits it in place
                     # between the writes (header row object included):
